@@ -1,4 +1,6 @@
 import Proofs.PCQueueOrder
+import Proofs.ChainPool
+import Proofs.ChainRing
 /-!
 # C17 — Queues and chains deliver each item exactly once, in order, and terminate
 
@@ -180,5 +182,95 @@ example : ∃ s, Reach demoInit s ∧ occupied s = 2 ∧ s.empty = 0
 example : (runSched demoInit ([0,0,0,0,0, 1,1,1,1,1, 2,2,2,2,2, 0,0,0,0,0, 3,3,3,3,3, 2,2,2,2,2])).map
     (fun s => (s.reads, allDone s, s.empty, s.used)) = some ([(2, 7), (3, 9), (2, 8)], true, 2, 0) := by
   decide
+
+/-! ## Part 2: `util::ThreadPool` (util/thread_pool.hh)
+
+Model `KV.Chain.Pool` (lean/Model/Chain.lean): the queue is an atomic bounded FIFO (Part 1), one step = one
+whole `Produce` / `Consume` / thread start / `join`; any capacity ≥ 1, any number of workers ≥ 1, any
+requests, arbitrary scheduler. -/
+section pool
+open KV.Chain
+
+variable {w : Nat} {reqs : List Nat} {p : Pool}
+
+theorem pool_reach_cap (hr : Pool.Reach (Pool.init cap w reqs) p) : p.cap = cap := by
+  induction hr with
+  | init => rfl
+  | step _ hs ih => exact (pool_step_cap hs).trans ih
+
+/-- **ThreadPool: every request is run exactly once and the destructor terminates.**
+In every reachable state: (1) the items popped so far (in pop order), then the queue, then what the user
+thread has still to submit, are exactly `requests ++ poison^w` — nothing lost, duplicated or reordered;
+(2) what worker `i` has handled is exactly the requests among its own pops, in order; (3) the queue never
+exceeds its capacity; (4) unless everything has finished some thread can step (no deadlock: `w` poisons
+for `w` workers, sent before the joins); (5) every step decreases `Pool.measure` (termination); and
+(6) once everything has finished, the requests popped are exactly the submitted requests, each once, the
+queue is empty and every worker has returned. -/
+theorem pool_exactly_once (hw : 0 < w) (hcap : 0 < cap) (hr : Pool.Reach (Pool.init cap w reqs) p) :
+    p.log.map (·.2) ++ p.q ++ p.todo = reqs.map Item.val ++ List.replicate w Item.poison
+    ∧ (∀ i, i < w → p.handled.getD i [] = ((p.log.filter (fun x => x.1 == i)).map (·.2)).filterMap Item.val?)
+    ∧ p.q.length ≤ cap
+    ∧ (p.allDone = false → ∃ tid, p.step tid ≠ none)
+    ∧ (∀ tid p', p.step tid = some p' → p'.measure < p.measure)
+    ∧ (p.allDone = true →
+        (p.log.map (·.2)).filterMap Item.val? = reqs ∧ p.q = [] ∧ p.wpc.all (· == .finished) = true) := by
+  have h := pinv_reach hr
+  have hc := pool_reach_cap hr
+  refine ⟨h.cons, h.hand, hc ▸ h.capb, fun hnd => pool_no_deadlock_inv hw (hc ▸ hcap) h hnd,
+          fun tid p' hs => pool_measure_step h hs, ?_⟩
+  intro hd
+  simp only [Pool.allDone, Pool.mainDone, Bool.and_eq_true, List.isEmpty_iff, beq_iff_eq] at hd
+  obtain ⟨⟨ht, _⟩, hall⟩ := hd
+  have hf : p.wpc.countP (· == .finished) = p.wpc.length := by
+    rw [List.countP_eq_length]; exact List.all_eq_true.mp hall
+  obtain ⟨hq, hlog⟩ := log_complete hw h ht hf
+  exact ⟨by rw [hlog, filterMap_allItems], hq, hall⟩
+
+/-- non-vacuity: a concrete complete run with 2 workers, capacity 1, three requests -/
+example : ((([0, 1, 1, 2, 0, 2, 0, 1, 0, 2, 0, 1, 0, 0]).foldl
+      (fun (o : Option Pool) t => o.bind (·.step t)) (some (Pool.init 1 2 [5, 6, 7]))).map
+      (fun p => (p.allDone, p.handled))) = some (true, [[5, 7], [6]]) := by decide
+
+end pool
+
+/-! ## Part 3: `util::stream::Chain` (util/stream/chain.hh, chain.cc)
+
+Model `KV.Chain.Chain` (lean/Model/Chain.lean): `b ≥ 1` blocks, `m ≥ 1` workers (source + pass-through
+stages) + the `Recycler`, the user thread running `Chain::Start` and `Chain::Wait`; queues are atomic bounded
+FIFOs (Part 1); arbitrary scheduler.
+
+Full statement intended by DESIGN §5 (`chain_ring`), kept here for reference:
+  for every reachable state, for every pass-through stage `j`:
+    `pushed (j) ++ pending j = (popped (j-1)).map (F j)`  (each stage outputs the image of exactly what it
+    received, in order: content preserved), `popped (j-1)` is a prefix of `pushed (j-1)` (it sees its
+    predecessor's blocks in order), each `pushed j` contains at most one poison, as its last element, and
+    ends with it once stage `j` has finished; some thread can step unless everything has finished, and a
+    measure decreases, so `Chain::Wait` returns.
+Proved below (`chain_ring_partial`): the per-queue part.  **Missing**: the stage input/output relation,
+poison-exactly-once, deadlock freedom and termination of the ring; these are only *checked* — on the model
+by exhaustive enumeration of all schedules for small (b, m, n) in the driver, and on the real code by the
+schedule-driven correspondence and the oracle of checks/C17.py — which is bounded exploration, not proof. -/
+section chain
+open KV.Chain
+
+/-- **Chain (partial)**: in every reachable state of every chain (any block count, any number of workers, any
+data, any schedule), for every queue: everything ever pushed = everything ever popped ++ the current content
+— so the consumer of a queue receives exactly what its producer pushed, in order, nothing lost or duplicated —
+and no queue ever holds more than `b` items. -/
+theorem chain_ring_partial (b m : Nat) (data : List Nat) {c : Chain}
+    (hr : Chain.Reach (Chain.init b m data) c) :
+    (∀ j, c.pushed.getD j [] = c.popped.getD j [] ++ c.qs.getD j [])
+    ∧ (∀ j, (c.qs.getD j []).length ≤ c.b) := by
+  have h := cinv_reach (cinv_init b m data) hr
+  exact ⟨h.fifo, h.capb⟩
+
+/-- non-vacuity / the complete behaviour on a concrete chain: 2 blocks, source + 1 pass stage + recycler,
+3 data blocks; this complete schedule ends with everything finished and stage 2 having seen the data in order -/
+example : ((([0, 0, 1, 1, 1, 1, 1, 2, 2, 2, 2, 2, 3, 3, 3, 1, 1, 2, 2, 3, 3, 1, 1, 0, 2, 2, 0, 3, 3, 3, 3, 0, 0, 0]).foldl
+      (fun (o : Option Chain) t => o.bind (·.step t)) (some (Chain.init 2 2 [11, 12, 13]))).map
+      (fun c => (c.allDone, c.seen.getD 1 [], c.pushed.getD 0 [] == c.popped.getD 0 []))) =
+    some (true, [11, 12, 13], true) := by decide
+
+end chain
 
 end KV.C17
